@@ -3,6 +3,7 @@ Implementation: golem.core.dag.graph_verifier.GraphVerifier, golem.core.dag.veri
 BaseOptimizationAdapter.adapt_func / AdaptRegistry.is_native (IdentityAdapter, DirectAdapter,
 BaseNetworkxAdapter).  Model: coq/theories/Graph/Rules.v (agree / holds_b / check_case)."""
 import concurrent.futures
+import functools
 import hashlib
 import itertools
 import random
@@ -144,10 +145,17 @@ def rand_subset(rng):
     return [['b', i] for i in rng.sample(range(6), k)]
 
 
+FORMS = ['function', 'function', 'partial', 'method', 'partial-registered', 'method-registered']
+
+
 def rand_user_config(rng, n_edges):
+    """a user rule is ['u', native, behaviour, form]; form = how the callable is presented to the verifier
+    (plain function / functools.partial / bound method) and which object was registered native (the
+    underlying function, or the partial / bound method itself) - not part of the model: is_native unwraps"""
     rules = [['b', i] for i in rng.sample(range(6), rng.randint(0, 3))]
     for _ in range(rng.choice([1, 1, 2])):
-        rules.insert(rng.randint(0, len(rules)), ['u', rng.random() < 0.4, rand_behaviour(rng, n_edges)])
+        rules.insert(rng.randint(0, len(rules)),
+                     ['u', rng.random() < 0.4, rand_behaviour(rng, n_edges), rng.choice(FORMS)])
     return rules
 
 
@@ -211,17 +219,31 @@ def count_edges(x):
     return len(x.get_edges())
 
 
-def make_user_rule(idx, native, behaviour, log, graph):
-    def user_rule(x):
+def make_user_rule(idx, native, behaviour, log, graph, form='function'):
+    def body(x):
         log.append([idx, describe(x, graph)])
         if behaviour[0] == 'const':
             return _emit(behaviour[1], idx)
         if count_edges(x) <= behaviour[1]:
             return True
         return _emit(behaviour[2], idx)
+
+    if form.startswith('partial'):
+        def inner(x, unused=None):
+            return body(x)
+        presented = functools.partial(inner, unused=idx)
+        underlying = inner
+    elif form.startswith('method'):
+        class Holder:
+            def check(self, x):
+                return body(x)
+        presented = Holder().check
+        underlying = Holder.check
+    else:
+        presented = underlying = body
     if native:
-        register_native(user_rule)
-    return user_rule
+        register_native(presented if form.endswith('-registered') else underlying)
+    return presented
 
 
 def observe(graph, ad, raise_flag, rules):
@@ -235,7 +257,7 @@ def observe(graph, ad, raise_flag, rules):
             if r[0] == 'b':
                 real.append(builtin(r[1]))
             else:
-                f = make_user_rule(idx, r[1], r[2], log, graph)
+                f = make_user_rule(idx, r[1], r[2], log, graph, r[3] if len(r) > 3 else 'function')
                 made.append(f)
                 real.append(f)
     verifier = GraphVerifier(real, adapter=adapter_of(ad), raise_on_failure=raise_flag)
@@ -463,9 +485,9 @@ def run(ctx):
                         'rules': r['rules'], 'observed': r['observed']})
     merge_acc(ctx, 'random4-7', acc)
     ctx.set_exhaustive('random4-7', False)
-    evaluate(ctx, 'random4-7', items, shard=200)
+    evaluate(ctx, 'random4-7', items, shard=ctx.pick(200, 500))
     # ---- all digraphs on 4 nodes (thorough), a sample of them in the quick tier
-    params = (False, 3, 2)
+    params = (False, ctx.pick(3, 1), 2)
     if thorough and ctx.scale == 1:
         codes = list(range(1 << 16))
     else:
@@ -490,24 +512,31 @@ def run(ctx):
     group = 'all-n4' if len(codes) == 1 << 16 else 'sample-n4'
     merge_acc(ctx, group, acc)
     ctx.set_exhaustive(group, len(codes) == 1 << 16)
-    evaluate(ctx, group, items, shard=512)
+    evaluate(ctx, group, items, shard=ctx.pick(250, 2048))
 
 
 def replay(ctx, payload):
-    v = payload.get('violation') or payload.get('first_disagreement') or payload
-    case = v.get('case') if isinstance(v, dict) else None
-    if not case or 'rules' not in case:
+    """payload: a replay file written by run_check (one failing run) or a corpus file {'cases': [run, ...]}"""
+    if isinstance(payload, dict) and 'cases' in payload:
+        todo = payload['cases']
+    else:
+        v = payload.get('violation') or payload.get('first_disagreement') or payload
+        case = v.get('case') if isinstance(v, dict) else None
+        todo = [case] if case and 'rules' in case else []
+    texts, done = [], []
+    for case in todo:
+        par = case['graph']
+        o = observe(build(par), case['adapter'], case['raise_on_failure'], case['rules'])
+        texts.append(c_case(par, [c_run(case['adapter'], case['raise_on_failure'], case['rules'], o)]))
+        c = dict(case)
+        c['observed'] = o
+        done.append(c)
+    if not texts:
         return
-    par = case['graph']
-    rules = case['rules']
-    g = build(par)
-    o = observe(g, case['adapter'], case['raise_on_failure'], rules)
-    text = c_case(par, [c_run(case['adapter'], case['raise_on_failure'], rules, o)])
-    res = ctx.coq_cases('replay', REQ, FN, [text], 2, case_ty=CASE_TY, preamble=PREAMBLE)
-    ctx.count('replay', key=repr(case), nontrivial=True)
-    c = dict(case)
-    c['observed'] = o
-    if not res[0][1]:
-        ctx.violate('replay', c, 'verdict / rule argument contradicts the structural conditions of the configured rules')
-    if not res[0][0]:
-        ctx.disagree('replay', c, 'model and implementation differ')
+    res = ctx.coq_cases('replay', REQ, FN, texts, 2, case_ty=CASE_TY, preamble=PREAMBLE)
+    for c, (ag, ho) in zip(done, res):
+        ctx.count('replay', key=repr((c['graph'], c['adapter'], c['raise_on_failure'], c['rules'])), nontrivial=True)
+        if not ho:
+            ctx.violate('replay', c, 'verdict / rule argument contradicts the structural conditions of the configured rules')
+        if not ag:
+            ctx.disagree('replay', c, 'model and implementation differ')
